@@ -2,7 +2,6 @@ package cfgx
 
 import (
 	"math/rand"
-	"net/http"
 	"strconv"
 	"strings"
 )
@@ -69,8 +68,8 @@ func Unmet(n *Node, k Kind, st *State) bool {
 	case KVStatus:
 		return st.Status != n.AttrInt("statusCode")
 	case KVHeader:
-		vs, ok := st.H(k)[http.CanonicalHeaderKey(n.Attr("name"))]
-		if !ok || len(vs) == 0 {
+		vs := st.HeaderValues(k, n.Attr("name"))
+		if len(vs) == 0 {
 			return true
 		}
 		return n.Attr("value") != "" && !contains(vs, n.Attr("value"))
@@ -125,11 +124,12 @@ type vgen struct {
 	nsts int
 
 	schemeUsed bool
+	pseudo     map[string]bool
 }
 
 // GenVTree draws a verifier-bearing tree.
 func GenVTree(rng *rand.Rand, o VGenOpts) *Node {
-	g := &vgen{rng: rng, o: o}
+	g := &vgen{rng: rng, o: o, pseudo: map[string]bool{}}
 	var t *Node
 	switch o.Top {
 	case "group":
@@ -184,6 +184,23 @@ func (g *vgen) verifier() *Node {
 		n.A["name"] = "X-V" + tok[1:]
 		if g.rng.Intn(2) == 0 {
 			n.A["value"] = "w1"
+		}
+		// headers net/http keeps outside the header map; the name is the token,
+		// so each at most once per tree
+		if x := g.rng.Intn(12); x == 0 && !g.pseudo["Host"] {
+			g.pseudo["Host"] = true
+			n.A["name"] = "Host"
+			delete(n.A, "value")
+			if g.rng.Intn(4) != 0 {
+				n.A["value"] = Hosts[g.rng.Intn(len(Hosts))]
+			}
+		} else if x == 1 && !g.pseudo["Transfer-Encoding"] {
+			g.pseudo["Transfer-Encoding"] = true
+			n.A["name"] = "Transfer-Encoding"
+			delete(n.A, "value")
+			if g.rng.Intn(2) == 0 {
+				n.A["value"] = "chunked"
+			}
 		}
 	case KVMethod:
 		n.A["method"] = "M" + tok
@@ -284,6 +301,16 @@ func Meet(v *Node, m *Msg) {
 	case KVStatus:
 		m.Status = v.AttrInt("statusCode")
 	case KVHeader:
+		switch v.Attr("name") {
+		case "Host":
+			if h := v.Attr("value"); h != "" {
+				m.Host = h
+			}
+			return
+		case "Transfer-Encoding":
+			m.ReqChunked, m.ResChunked = true, true
+			return
+		}
 		val := v.Attr("value")
 		if val == "" {
 			val = "any"
@@ -322,6 +349,17 @@ func HalfMeet(rng *rand.Rand, v *Node, m *Msg) {
 	}
 	switch v.Kind {
 	case KVHeader:
+		switch v.Attr("name") {
+		case "Host":
+			return
+		case "Transfer-Encoding": // on one side only
+			if rng.Intn(2) == 0 {
+				m.ReqChunked = true
+			} else {
+				m.ResChunked = true
+			}
+			return
+		}
 		p := Pair{v.Attr("name"), val}
 		switch rng.Intn(3) {
 		case 0:
@@ -398,9 +436,9 @@ func FailPath(n *Node, k Kind, st *State) string {
 			return "status-differs"
 		}
 	case KVHeader:
-		vs, ok := st.H(k)[http.CanonicalHeaderKey(n.Attr("name"))]
+		vs := st.HeaderValues(k, n.Attr("name"))
 		switch {
-		case !ok || len(vs) == 0:
+		case len(vs) == 0:
 			return "header-missing"
 		case n.Attr("value") == "" || contains(vs, n.Attr("value")):
 			return ""
